@@ -74,4 +74,8 @@ def main(tier):
     provenance.check_undef(rep, {'ec_dot_prod'}, 'EC', 33)
     provenance.check_kwidth(rep, {'ec_dot_prod'}, 'EC', 33)
     gftype.check(rep, {'ec_dot_prod'}, 'EC', 33)
+    import bounds
+    bounds.check(rep, {'ec_dot_prod'}, 'EC', 33)
+    import gfrows
+    gfrows.check_dot(rep, 33)
     return rep.finish()
